@@ -3,6 +3,16 @@
 import json, sys
 pid, tag = sys.argv[1], sys.argv[2]
 p = next(json.loads(l) for l in open('/verif/properties.jsonl') if json.loads(l)['id'] == pid)
+import glob
+prev = []
+for f in sorted(glob.glob(f"/verif/seeded/{pid}-*/meta.json")):
+    try:
+        prev.append("- " + (json.load(open(f)).get("summary") or "")[:400].replace("\n", " "))
+    except Exception:
+        pass
+avoid = ("\nALREADY TRIED by other testers for this property (choose a DIFFERENT site and mechanism; prefer a different function/class, "
+         "a different kind of slip, e.g. two cooperating sites that each look fine alone, a multi-step sequence, state carried across calls, "
+         "an interaction between two features):\n" + "\n".join(prev) + "\n") if prev else ""
 wt = f"/tmp/mut-{pid}-{tag}"
 out = f"/tmp/mut-{pid}-{tag}.out"
 print(f"""You are testing how well an (unknown to you) verification harness detects realistic regressions in the Python/JAX library jinns (physics-informed neural networks). You get only a property the library is supposed to satisfy, and your own scratch git worktree of the library. Do not look at or use anything under /verif.
@@ -14,6 +24,7 @@ Where it lives: files {p['anchors']['files']}; mechanisms: {[m['name'] + ' @ ' +
 
 YOUR WORKTREE: {wt} (a git worktree of the library at its current HEAD; python = /venv/bin/python; run code against it with `cd {wt} && JAX_PLATFORMS=cpu PYTHONPATH={wt} /venv/bin/python yourscript.py` — check `import jinns; print(jinns.__file__)` points into {wt}). Never touch /repo itself and never commit anything.
 
+{avoid}
 TASK: write ONE small, realistic change to the library source (the kind of slip a maintainer could make in a refactor: an off-by-one, a swapped argument, a wrong axis/index/key, a condition that is subtly wrong, a stale variable, two sites that each look fine alone) that BREAKS the property above while (a) the package still imports and (b) the existing test suite still passes. Prefer a change that needs something specific to manifest (a particular size/shape relation, a multi-step sequence of calls, an unusual but legal input, a later epoch/iteration, a particular configuration), NOT one that ordinary first use would expose at once. Do not make the change depend on magic constants or special-case inputs artificially ("if n == 7"); it must look like an honest bug.
 
 Then write a demonstration: a small standalone script `{out}/demo.py` that exits 0 (prints OK) on the ORIGINAL code and exits 1 (prints what is wrong) WITH your change, by exercising the library's public behaviour relevant to the property.
